@@ -377,8 +377,17 @@ def bandwidth_equivariance_failures(sample, mode):
 # ---------------------------------------------------------------- the run
 def run(rep: C.Report, tier: str) -> int:
     quick = tier == "quick"
+    import time
+    T0 = [time.time()]
+    stages = {}
+
+    def lap(name):
+        stages[name] = round(time.time() - T0[0], 1)
+        T0[0] = time.time()
+        rep.coverage["stage_seconds"] = stages
     C.clean_gen(PROP)
     C.prove_and_audit(rep, PROP, THEOREMS)
+    lap("audit")
 
     # ---------- 1. discrete structure, exactly ----------
     r = C.rng_for(PROP, "structure")
@@ -403,6 +412,7 @@ def run(rep: C.Report, tier: str) -> int:
                         "points": [float(p) for p in obs["points"][:6]],
                         "pdf": [float(v) for v in obs["pdf"][:6]]})
 
+    lap("run implementation (structure)")
     suspicious = {}          # case index -> reason
     texts = []
     for k, (case, obs) in enumerate(zip(cases, obs_l)):
@@ -417,8 +427,7 @@ def run(rep: C.Report, tier: str) -> int:
     for i in range(0, len(texts), CH):
         chunk = texts[i:i + CH]
         body = "Definition cases : list kde_case :=\n " + C.clist([t for _, t in chunk], ";\n ") + "."
-        p = C.write_case_file(PROP, f"structure_{i // CH}", HEADER, body,
-                              ["failing check_case cases 0", "failing_codes cases 0"])
+        p = C.write_case_file(PROP, f"structure_{i // CH}", HEADER, body, ["failing_codes cases 0"])
         files.append(p)
         index.append([k for k, _ in chunk])
     outs = C.run_case_files(files, jobs=14)
@@ -431,16 +440,17 @@ def run(rep: C.Report, tier: str) -> int:
             continue
         rep.obligation(True)
         n_checked += len(idx)
-        codes = res.get(1, [])
+        codes = res[0]
         cm = {codes[j]: codes[j + 1] for j in range(0, len(codes) - 1, 2)}
-        for j in res[0]:
-            code = cm.get(j, 0)
+        for j in sorted(cm):
+            code = cm[j]
             what = [BITS[b] for b in range(7) if code >> b & 1]
             suspicious[idx[j]] = "model and implementation disagree on: " + ", ".join(what)
             for b in range(7):
                 if code >> b & 1:
                     rep.count("disagree:" + BITS[b].split(" (")[0])
     rep.coverage["structures_validated_against_impl"] = n_checked
+    lap("structure in Coq")
 
     # ---------- 2. pdf / cdf values by interval goals ----------
     rg = C.rng_for(PROP, "goals")
@@ -488,6 +498,7 @@ def run(rep: C.Report, tier: str) -> int:
         suspicious.setdefault(k, f"interval goal {gid} fails: the model's value at point {float(obs_l[k]['points'][i])} "
                                  f"is not the implementation's")
 
+    lap("value goals")
     # ---------- 3. failing-input search on every disagreement ----------
     rs = C.rng_for(PROP, "search")
     reported = 0
@@ -521,6 +532,7 @@ def run(rep: C.Report, tier: str) -> int:
             break
     rep.coverage["oracle_runs_R"] = n_oracle
 
+    lap("search + oracle")
     # ---------- 5. bandwidth modes ----------
     rb = C.rng_for(PROP, "bandwidth")
     bw_goals, bw_case = [], {}
@@ -581,6 +593,7 @@ def run(rep: C.Report, tier: str) -> int:
             rep.violation("C12/correspondence", f"bandwidth goal {gid} fails but shift/scale equivariance holds on this sample",
                           {"theorem_or_correspondence": "RealModel.Kde.rule_of_thumb / cv_widths",
                            "mode": mode, "sample_hex": [float(v).hex() for v in s]}, False)
+    lap("bandwidth goals")
     # [R] equivariance of both automatic modes on every bandwidth sample
     n_eq = 0
     for kind, s in bw_samples[: (6 if quick else 40)]:
@@ -592,6 +605,7 @@ def run(rep: C.Report, tier: str) -> int:
                               {"check": "bandwidth", "mode": mode, "sample_hex": [float(v).hex() for v in s]}, True)
     rep.coverage["bandwidth_equivariance_runs_R"] = n_eq
 
+    lap("bandwidth equivariance")
     # ---------- 6. [R] cdf: monotone across regions, limits, = integral of pdf ----------
     rc = C.rng_for(PROP, "cdf")
     n_cdf_runs = 0
@@ -606,6 +620,7 @@ def run(rep: C.Report, tier: str) -> int:
                                                   "sample_hex": [float(v).hex() for v in s]}, True)
             break
     rep.coverage["cdf_runs_R"] = n_cdf_runs
+    lap("cdf runs")
 
     rep.assumptions = [
         "layer count n = int(log(range/h)/log 2)+1 is a float computation: it is read back from the code and the "
@@ -655,7 +670,6 @@ def cdf_failures(s, mode, r):
     if np.any(p < 0):
         bad.append(f"{mode}: negative density")
     # cdf = integral of pdf (trapezium on a fine grid; tolerance covers quadrature + truncation)
-    from numpy import trapz
     integ = np.concatenate([[0.0], np.cumsum(0.5 * (p[1:] + p[:-1]) * np.diff(x))])
     dxh = (x[1] - x[0]) / h
     tol = 2e-3 + 0.2 * dxh * dxh
